@@ -70,6 +70,20 @@ CHECKS = {
                 text='Every editing call with valid and invalid arguments from every start structure, plus seeded random '
                      'sessions; TLC decides soundness of the real structure after each call, failed-edit-changes-nothing, and the exact documented effect.',
                 note='Trusted: TLC; harness/model_edit.py projection of a Statechart through its public queries. Transitions identified by (source, target, event).'),
+    'C15': dict(engine='tlc-system', ref='6 C15', technique='TLC model checking of spec/System.tla (two interpreters + callables, bind/detach) + every edge replayed on real bound interpreters + TLC trace validation (spec/SystemTrace.tla)',
+                text='All sequences of bind/detach/queue/advance/execute_once over pairs of sending charts within bounds (chains, '
+                     'fan-out, cycles, self-binding, callables); TLC decides what had to be delivered during each real call, and '
+                     'the queue formulas of each target with the delivered events in its ghost multiset.',
+                note='Trusted: TLC; deliveries to a bound interpreter are observed by wrapping its queue method before binding.'),
+    'C19': dict(engine='tlc-bdd', ref='6 C19', technique='TLC enumeration of scenarios over spec/Bdd.tla + each scenario run through the real execute_bdd/behave + TLC decides every reported step status (spec/BddTrace.tla)',
+                text='Every scenario of up to 3 (quick) / 4 (thorough) predefined steps in the documented spelling that ends with '
+                     'an assertion, true and false alike; "passed" must coincide with the documented meaning computed by the model.',
+                note="Trusted: TLC; behave's JSON report for the per-step status; harness/bdd_check.py rendering of steps to Gherkin."),
+    'C20': dict(engine='tlc-runner', ref='6 C20', technique='TLC model checking of spec/Runner.tla (all schedules, safety + liveness under fairness) + every maximal schedule forced on the real threads by a deterministic scheduler + TLC trace validation (spec/RunnerTrace.tla)',
+                text='Runner thread against a client thread at the granularity of the scheduling points (queue split at '
+                     'bisect/insert, execute_once at clock/peek/pop); safety clauses on every observed step, StopReturns/FinalStops '
+                     'under weak fairness; known finding D11 (queue races) classified by the ghost flag raced.',
+                note='Trusted: TLC; CPython GIL (switches matter only at the instrumented points); one client thread.'),
 }
 
 PENDING = {
@@ -105,6 +119,12 @@ def main():
                                                    'will be claimed once its TLA+ check exists')}
           for p in props if p not in CHECKS]
     engines_extra = [
+        {'name': 'tlc-system', 'path': 'spec/System.tla, spec/SystemTrace.tla; harness/system_check.py', 'serves_properties': ['C15'],
+         'kind_free_text': 'TLA+ spec of bound interpreters; edges replayed on real interpreters; runs decided by TLC'},
+        {'name': 'tlc-bdd', 'path': 'spec/Bdd.tla, spec/BddMC.tla, spec/BddTrace.tla; harness/bdd_check.py', 'serves_properties': ['C19'],
+         'kind_free_text': 'TLA+ spec of the predefined BDD steps; scenarios run through behave; verdicts decided by TLC'},
+        {'name': 'tlc-runner', 'path': 'spec/Runner.tla, spec/RunnerTrace.tla; harness/sched.py, harness/runner_check.py', 'serves_properties': ['C20'],
+         'kind_free_text': 'TLA+ spec of AsyncRunner vs client; schedules forced on real threads; observed steps decided by TLC'},
         {'name': 'tlc-yaml', 'path': 'spec/Yaml.tla, spec/YamlMC.tla, spec/YamlTrace.tla; harness/yaml_check.py',
          'serves_properties': ['C11', 'C12'], 'kind_free_text': 'TLA+ spec of the YAML importer/exporter on abstract documents; fault enumeration in the model; real importer decided by TLC'},
         {'name': 'tlc-model', 'path': 'spec/Model.tla, spec/ModelMC.tla, spec/ModelTrace.tla; harness/model_edit.py',
